@@ -31,6 +31,7 @@ type c11Gen struct {
 	native []string // native denominations minted in this history
 	force     *common.Address // when set, the next steps address this contract's pair
 	forceBase string          // … and ICS-20 packets carry this base denomination
+	pgAmt     *big.Int        // while a programmable token is armed: the amount that makes `after == before + amount` coincide
 }
 
 func (g *c11Gen) do(op string) string {
@@ -60,6 +61,9 @@ func (g *c11Gen) amount0(bal *big.Int) *big.Int {
 		bal = big.NewInt(0)
 	}
 	rng := g.r.Rng
+	if g.pgAmt != nil && g.pgAmt.Sign() > 0 && rng.Intn(5) < 3 {
+		return new(big.Int).Set(g.pgAmt)
+	}
 	switch x := rng.Intn(60); {
 	case x == 0:
 		return big.NewInt(0)
@@ -205,6 +209,9 @@ func (g *c11Gen) history() {
 	if rng.Intn(3) == 0 {
 		kinds = append(kinds, "fr")
 	}
+	if rng.Intn(5) < 3 { // the programmable token (c11_pg_test.go)
+		kinds = append(kinds, "pg")
+	}
 	for _, k := range kinds {
 		deployer := g.accts[rng.Intn(2)]
 		seq, _ := w.app.AccountKeeper.GetSequence(w.ctx, deployer.Bytes())
@@ -234,7 +241,7 @@ func (g *c11Gen) history() {
 				continue
 			}
 			amt := big.NewInt(int64(1 + rng.Intn(1000)))
-			if k == "mb" || k == "dd" || k == "fr" {
+			if k == "mb" || k == "dd" || k == "fr" || k == "pg" {
 				if rng.Intn(10) == 0 {
 					amt = new(big.Int).Lsh(big.NewInt(1), uint(100+rng.Intn(150)))
 				}
@@ -247,7 +254,7 @@ func (g *c11Gen) history() {
 			g.do(fmt.Sprintf("tmint %s %s %s %s", c11Hex(c), c11Hex(deployer), c11Hex(g.accts[2]),
 				new(big.Int).Sub(c11MaxUint, w.callUint(w.ctx, c, "totalSupply"))))
 		}
-		if hasIbc && rng.Intn(3) > 0 { // fund the module's token escrow so that hook conversions can succeed
+		if (hasIbc && rng.Intn(3) > 0) || (k == "pg" && rng.Intn(4) > 0) { // fund the module's token escrow so that hook conversions can succeed
 			for _, a := range g.accts {
 				if b := w.callUint(w.ctx, c, "balanceOf", a); b != nil && b.Cmp(big.NewInt(4)) > 0 && b.BitLen() < 64 {
 					ra := sdk.AccAddress(a.Bytes()).String()
@@ -290,6 +297,13 @@ func (g *c11Gen) stepOp() {
 	rng := g.r.Rng
 	w := g.w
 	c := w.contracts[rng.Intn(len(w.contracts))]
+	if g.force == nil && rng.Intn(4) == 0 { // the programmable token gets a quarter of the steps
+		for _, x := range w.contracts {
+			if w.kinds[x] == "pg" {
+				c = x
+			}
+		}
+	}
 	if g.force != nil {
 		c = *g.force
 	} else if rng.Intn(100) < 6 {
@@ -300,6 +314,35 @@ func (g *c11Gen) stepOp() {
 		return
 	}
 	p := w.pairOf(w.ctx, c)
+	if w.kinds[c] == "pg" && p.found {
+		// arm the programmable token for this step: every combination of first / second reading behaviour and transfer
+		// behaviour, with the amount that would make a zeroed first reading coincide (amount == escrow, == receiver balance)
+		if rng.Intn(10) < 7 {
+			m1, m2, xf := rng.Intn(5), rng.Intn(5), rng.Intn(8)
+			if rng.Intn(3) == 0 {
+				m1, xf = []int{1, 2, 4}[rng.Intn(3)], 2 // the "locked" token: failed first reading, transfer without effect
+				m2 = 0
+			}
+			who := "-"
+			switch rng.Intn(4) {
+			case 0:
+				who = c11Hex(w.module)
+			case 1:
+				who = c11Hex(g.anyAcct())
+			}
+			g.do(fmt.Sprintf("ctl %s %d %d %s %d", c11Hex(c), m1, m2, who, xf))
+			g.pgAmt = w.callUint(w.ctx, c, "balanceOf", w.module)
+			if rng.Intn(3) == 0 {
+				g.pgAmt = w.callUint(w.ctx, c, "balanceOf", g.anyAcct())
+			}
+			defer func() {
+				g.pgAmt = nil
+				if rng.Intn(5) > 0 {
+					g.doDump(fmt.Sprintf("ctl %s 0 0 - 0", c11Hex(c)))
+				}
+			}()
+		}
+	}
 	if g.force == nil && rng.Intn(3) == 0 { // disabled things come back soon, so that histories do not die
 		if !w.app.AggregateKeeper.GetParams(w.ctx).EnableAggregate {
 			g.setModule(true)
